@@ -3,22 +3,22 @@ ORACLE = 'Trusted: the Python reference model (self-tested on RFC 7748/8032/9496
 CHECKS = {
     'C01': {
         'technique': 'runtime monitoring: reference-model checker over recorded field-op request/response logs, raw-limb hooks, all serial backends + AVX2/IFMA vector fields',
-        'text': 'Every crate-private field operation is driven through guarded hooks on operands in every representation class (bytes, nominal limbs, limbs at the reducing-op output bound, limbs at the documented pre-condition headroom, all-limbs-at-bound), incl. chains that feed raw results back; each canonical result is judged against Python integers mod p on the value denoted by the input limbs. u64, u32, fiat64, fiat32 serial types in quick; all six builds, checked profile and both vector field types in thorough.',
+        'text': 'Every crate-private field operation is driven through guarded hooks on operands in every representation class (bytes, nominal limbs, limbs at the reducing-op output bound, limbs at the documented pre-condition headroom, all-limbs-at-bound), incl. chains that feed raw results back; each canonical result is judged against Python integers mod p on the value denoted by the input limbs. u64, u32, fiat64, fiat32 serial types in quick; all six builds, checked profile and both vector field types in thorough. Vector operands cover the documented ranges (IFMA multiplier / squarer [0, 2^52), AVX2 new() with unreduced serial limbs), not only what the crate\'s own reductions emit.',
         'note': ORACLE,
     },
     'C02': {
         'technique': 'runtime monitoring: reference-model checker over recorded scalar request/response logs, release + overflow-checked builds of both scalar backends',
-        'text': 'Every public scalar constructor/operator/batch/int-conversion is executed on class-tagged corner values (k*l+-e, 2^252.., limb-boundary patterns, 512-bit extremes, products landing on either side of the final Montgomery subtraction) plus seeded random fill, in the u64 and u32 scalar backends (release and overflow-checked profiles); every response byte is judged against Python integer arithmetic mod l. Every canonical-bytes decoding is also asked of PrimeField::from_repr / from_repr_vartime.',
+        'text': 'Every public scalar constructor/operator/batch/int-conversion is executed on class-tagged corner values (k*l+-e, 2^252.., limb-boundary patterns, 512-bit extremes, products landing on either side of the final Montgomery subtraction) plus seeded random fill, in the u64 and u32 scalar backends (release and overflow-checked profiles); every response byte is judged against Python integer arithmetic mod l. Every canonical-bytes decoding is also asked of PrimeField::from_repr / from_repr_vartime. Scalar classes include values agreeing with l, 2l, 8l on a prefix or suffix of bits and differing at one position, 64-bit word patterns, sums that ripple carries through all-ones words; Sum / Product are taken over five iterator shapes.',
         'note': ORACLE,
     },
     'C03': {
         'technique': 'runtime monitoring: affine-group-law reference checker + curve-equation invariant on hooked coordinates after every step of recorded operation histories',
-        'text': 'Decoder sweep over constructed encoding classes (all torsion encodings, non-canonical y, sign bit on x=0, non-residues), a directed (op x operand relation x torsion class) matrix and random operation histories whose registers carry the exact internal (X,Y,Z,T) through the raw-limb hook; every result is checked against the complete affine addition law and the invariants -X^2Z^2+Y^2Z^2=Z^4+dX^2Y^2, XY=ZT, Z!=0. Results of mul / mul_base / double-base / constant-time and variable-time multiscalar steps re-enter the histories.',
+        'text': 'Decoder sweep over constructed encoding classes (all torsion encodings, non-canonical y, sign bit on x=0, non-residues), a directed (op x operand relation x torsion class) matrix and random operation histories whose registers carry the exact internal (X,Y,Z,T) through the raw-limb hook; every result is checked against the complete affine addition law and the invariants -X^2Z^2+Y^2Z^2=Z^4+dX^2Y^2, XY=ZT, Z!=0. Results of mul / mul_base / double-base / constant-time and variable-time multiscalar steps re-enter the histories. Registers also come back from the Montgomery form; the crate\'s own point constants are used as operands; the group-trait view is taken of computed points; sums run over five iterator shapes.',
         'note': ORACLE,
     },
     'C04': {
         'technique': 'runtime monitoring: discrete-log-shadow reference checker over every scalar-multiplication entry point under every forced dispatch target; digit-identity checker on hooked recoders',
-        'text': 'Every scalar-multiplication entry point (variable/fixed base, all table radices and conversions, clamped, vartime double-base, Straus/Pippenger at sizes around 190/500/800, precomputed mixed, ladder and bit-string ladder, Ristretto wrappers) runs on points a*B+j*T8 with known (a,j) and digit-pattern / unreduced scalars, under each implementation compiled into the build (Serial, AVX2, IFMA via the dispatch hook); results judged against the shadow sum; recoding digit vectors judged against their defining identities.',
+        'text': 'Every scalar-multiplication entry point (variable/fixed base, all table radices and conversions, clamped, vartime double-base, Straus/Pippenger at sizes around 190/500/800, precomputed mixed, ladder and bit-string ladder, Ristretto wrappers) runs on points a*B+j*T8 with known (a,j) and digit-pattern / unreduced scalars, under each implementation compiled into the build (Serial, AVX2, IFMA via the dispatch hook); results judged against the shadow sum; recoding digit vectors judged against their defining identities. Degenerate scalar vectors (all zero, all one, all l-1, single non-zero entry) and seed-drawn sizes between the documented thresholds are included.',
         'note': ORACLE + ' Expectation for large n trusts shadow linearity (generator knows every a_i, j_i).',
     },
     'C05': {
@@ -33,7 +33,7 @@ CHECKS = {
     },
     'C07': {
         'technique': 'runtime monitoring: RFC 7748 ladder reference checker over recorded X25519 / Montgomery / conversion logs incl. iterated-vector history',
-        'text': '(k,u) over constructed u classes (small order, twist, non-canonical, bit 255) through x25519(), all typed DH secrets, Montgomery*Scalar, mul_clamped, mul_bits_be; both-party agreement using driver-computed public keys; birational conversions with exceptional points; equality/hash mod p; RFC 7748 iteration (1000 quick / 100000 thorough steps) executed by the driver.',
+        'text': '(k,u) over constructed u classes (small order, twist, non-canonical, bit 255) through x25519(), all typed DH secrets, Montgomery*Scalar, mul_clamped, mul_bits_be; both-party agreement using driver-computed public keys; birational conversions with exceptional points; equality/hash mod p; RFC 7748 iteration (1000 quick / 100000 thorough steps) executed by the driver. The Edwards route (mul_clamped then to_montgomery), small-order and mixed-order VerifyingKey::to_montgomery, one-bit / one-byte neighbours of the distinguished u values, shared secrets with conspicuous byte patterns, and the OS-randomness constructors (judged through the peer\'s view) are included.',
         'note': ORACLE,
     },
     'C08': {
@@ -43,12 +43,12 @@ CHECKS = {
     },
     'C09': {
         'technique': 'runtime monitoring: predicate reference checker over constructed adversarial (key,message,signature) triples on legacy and non-legacy builds',
-        'text': 'Adversarial triples are constructed (not mutated): torsion keys and R in every accepted encoding with messages searched so that [k]A cancels / does not cancel, mixed-order keys, cofactored-only solutions, S in [l,2^256) incl. S+l, S+2l, non-canonical R, undecodable keys/R, plus the VALIDATIONVECTORS file; verify, verify_strict, raw_verify and prehashed variants are judged against the documented predicate evaluated in Python over the full group of order 8l. The key object is built by from_bytes, TryFrom<&[u8]>, bincode or JSON at random; is_weak and the stored key bytes are checked for every encoding of every small-order point; raw_verify is also judged with a pass-through digest.',
+        'text': 'Adversarial triples are constructed (not mutated): torsion keys and R in every accepted encoding with messages searched so that [k]A cancels / does not cancel, mixed-order keys, cofactored-only solutions, S in [l,2^256) incl. S+l, S+2l, non-canonical R, undecodable keys/R, plus the VALIDATIONVECTORS file; verify, verify_strict, raw_verify and prehashed variants are judged against the documented predicate evaluated in Python over the full group of order 8l. The key object is built by from_bytes, TryFrom<&[u8]>, bincode or JSON at random; is_weak and the stored key bytes are checked for every encoding of every small-order point; raw_verify is also judged with a pass-through digest. Constructors also include VerifyingKey::from(point), default() and From<&ExpandedSecretKey>; canonical S in [2^252, l) is reached under small-order keys by message search.',
         'note': ORACLE,
     },
     'C10': {
         'technique': 'runtime monitoring: valgrind memcheck as secret-taint monitor (secret bytes marked undefined, any tainted branch/address reported) + ptrace single-step instruction/address trace differ between runs that differ only in the secret',
-        'text': 'Each constant-time operation runs in the release driver with its secret inputs marked undefined through valgrind client requests; memcheck (precise definedness) reports any conditional jump or address computation that depends on them, attributed to one request by error-counter deltas; outputs that the API defines as public are declassified. A ptrace single-stepper records the RIP and memory-operand address sequence between two markers for runs that differ only in the secret and requires them identical (mandatory for IFMA, which valgrind cannot execute). Constant-time multiscalar multiplication is traced at 1..8, 190 and 200 terms.',
+        'text': 'Each constant-time operation runs in the release driver with its secret inputs marked undefined through valgrind client requests; memcheck (precise definedness) reports any conditional jump or address computation that depends on them, attributed to one request by error-counter deltas; outputs that the API defines as public are declassified. A ptrace single-stepper records the RIP and memory-operand address sequence between two markers for runs that differ only in the secret and requires them identical (mandatory for IFMA, which valgrind cannot execute). Constant-time multiscalar multiplication is traced at 1..8, 190 and 200 terms. The Montgomery Elligator encoder and the ff::Field view (sqrt, invert, square, double) of secret scalars are monitored too.',
         'note': 'Decided for the compiled artefact of the pinned compilers on x86-64, for the instructions valgrind/ptrace observe, along executed paths. Micro-architectural timing is out of scope. One reviewed tainted-but-constant site is listed in ct_invariant_sites.json.',
     },
     'C11': {
@@ -63,12 +63,12 @@ CHECKS = {
     },
     'C13': {
         'technique': 'runtime monitoring: conjunction-of-single-verification reference checker over recorded batch-verification histories (permutation, duplication, repetition); observer hook on the batch coefficients z_i feeding an adaptive forgery workload and a sensitivity monitor',
-        'text': 'Batches of honest signatures at sizes on both sides of the Straus/Pippenger (190 terms) and window switches, with none/one(first,middle,last)/many/all entries corrupted in message, key, R, S, S+l, off-curve R, each batch also shuffled, with a duplicated entry, and called twice; slice-length mismatches; under every forced dispatch target. Expected = conjunction of the single-verification predicate. A guarded hook shows the monitor the coefficients z_i of every call: they must be nonzero, pairwise distinct, repeatable and move whenever one component (message, key, R, S) of one entry changes; an attacker reading them shifts two S values so that sum z_i S_i is unchanged (both signatures individually invalid) and the batch must still reject.',
+        'text': 'Batches of honest signatures at sizes on both sides of the Straus/Pippenger (190 terms) and window switches, with none/one(first,middle,last)/many/all entries corrupted in message, key, R, S, S+l, off-curve R, each batch also shuffled, with a duplicated entry, and called twice; slice-length mismatches; under every forced dispatch target. Expected = conjunction of the single-verification predicate. A guarded hook shows the monitor the coefficients z_i of every call: they must be nonzero, pairwise distinct, repeatable and move whenever one component (message, key, R, S) of one entry changes; an attacker reading them shifts two S values so that sum z_i S_i is unchanged (both signatures individually invalid) and the batch must still reject. Crafted entries only a key holder can make (identity R, identity key, undecodable R whose S cancels the rest), batches beyond 512 and 1024 entries, and seed-drawn sizes are included; every backend runs in the quick tier.',
         'note': ORACLE + ' A false accept needs a 2^-128 event and is ignored.',
     },
     'C14': {
         'technique': 'runtime monitoring: instrumenting global allocator (dealloc-content log compared across runs differing only in the secret) + drop monitor (bytes of storage after drop_in_place)',
-        'text': 'The driver\'s global allocator snapshots every block at dealloc inside constant-time multiscalar multiplication and scalar batch inversion; logs (size, content) must be identical across runs that differ only in the secret scalars, for each forced backend copy. Secret-holding types are built in ManuallyDrop storage, used, dropped in place, and their storage searched for the secret and its derived forms; explicit zeroize results are checked. The heap part is repeated with the caller\'s point or scalar iterator panicking at the first / middle / last element (unwinding caught inside the measured region) and with zeros among the inversion inputs.',
+        'text': 'The driver\'s global allocator snapshots every block at dealloc inside constant-time multiscalar multiplication and scalar batch inversion; logs (size, content) must be identical across runs that differ only in the secret scalars, for each forced backend copy. Secret-holding types are built in ManuallyDrop storage, used, dropped in place, and their storage searched for the secret and its derived forms; explicit zeroize results are checked. The heap part is repeated with the caller\'s point or scalar iterator panicking at the first / middle / last element (unwinding caught inside the measured region) and with zeros among the inversion inputs. Batch sizes include 127/128, 190 and seed-drawn sizes in every range; a second driver profile (one codegen unit, fat LTO) is monitored as well.',
         'note': 'Release profile (the optimiser is what might elide a wipe). Stack copies and registers are out of scope (the README disclaims them too).',
     },
     'C15': {
@@ -83,7 +83,7 @@ CHECKS = {
     },
     'C17': {
         'technique': 'runtime monitoring: reference checker of ff/group trait entry points (Euler criterion, defining relations of constants, shadow group model)',
-        'text': 'sqrt on constructed residues x^2 and non-residues g*x^2, invert, from_repr/from_repr_vartime on the canonical-decoding corner list, trait constants against their defining relations (generator order via the factorisation of l-1 with primality-checked factors), GroupEncoding through the Edwards/Ristretto sweeps for EdwardsPoint/SubgroupPoint/RistrettoPoint, into_subgroup / clear_cofactor on a*B+j*T8 for all j, trait group ops vs the shadow model.',
+        'text': 'sqrt on constructed residues x^2 and non-residues g*x^2, invert, from_repr/from_repr_vartime on the canonical-decoding corner list, trait constants against their defining relations (generator order via the factorisation of l-1 with primality-checked factors), GroupEncoding through the Edwards/Ristretto sweeps for EdwardsPoint/SubgroupPoint/RistrettoPoint, into_subgroup / clear_cofactor on a*B+j*T8 for all j, trait group ops vs the shadow model. Operator-assign and mixed-type compound forms of SubgroupPoint, the trait view of computed points (incl. identities obtained by arithmetic), scripted RNG streams for Group::random, PrimeFieldBits, pow with exponents longer than the field are included; every point shown by its encoding carries a validity marker for its internal representation.',
         'note': ORACLE,
     },
 }
